@@ -333,6 +333,7 @@ func (E *Engine) loopInvs(st *State, li *loopInfo) []struct {
 	for _, cl := range li.Spec.Invs {
 		ev := E.cenvFor(st, E.cur, cl.Ctx)
 		ev.loopMode = true
+		ev.goal = E.provingInv
 		out = append(out, struct {
 			cl *Clause
 			f  string
@@ -373,7 +374,10 @@ func (E *Engine) loopEnter(st *State, li *loopInfo, from *ssa.BasicBlock) bool {
 	E.evalPhis(st, li.Header, from)
 	E.bindLoopNames(st, li)
 	site := fmt.Sprintf("loop%d", li.Ordinal)
-	for i, inv := range E.loopInvs(st, li) {
+	E.provingInv = true
+	entryInvs := E.loopInvs(st, li)
+	E.provingInv = false
+	for i, inv := range entryInvs {
 		E.oblige(st, "inv-entry", fmt.Sprintf("%s.%d", site, i), inv.f, inv.cl.Text, E.blockPos(li.Header), inv.cl)
 	}
 	for _, f := range E.inferredInvs(st, li) {
@@ -422,7 +426,7 @@ func (E *Engine) loopEnter(st *State, li *loopInfo, from *ssa.BasicBlock) bool {
 		// allocation may have grown
 		na := E.freshConst("alloc", "(Array Int Bool)")
 		r := E.freshName("r")
-		st.assume(fmt.Sprintf("(forall ((%s Int)) (! (=> (select %s %s) (select %s %s)) :pattern ((select %s %s))))", r, st.alloc, r, na, r, na, r))
+		st.assume(fmt.Sprintf("(forall ((%s Int)) (! (=> (select %s %s) (select %s %s)) :pattern ((select %s %s)) :pattern ((select %s %s))))", r, st.alloc, r, na, r, na, r, st.alloc, r))
 		st.alloc = na
 	}
 	// pointer well-formedness of havoced phis
@@ -464,7 +468,10 @@ func (E *Engine) loopBack(st *State, li *loopInfo, from *ssa.BasicBlock) {
 	E.evalPhis(st, li.Header, from)
 	E.bindLoopNames(st, li)
 	site := fmt.Sprintf("loop%d", li.Ordinal)
-	for i, inv := range E.loopInvs(st, li) {
+	E.provingInv = true
+	backInvs := E.loopInvs(st, li)
+	E.provingInv = false
+	for i, inv := range backInvs {
 		E.oblige(st, "inv-preserve", fmt.Sprintf("%s.%d", site, i), inv.f, inv.cl.Text, E.blockPos(li.Header), inv.cl)
 	}
 	for _, f := range E.inferredInvs(st, li) {
